@@ -38,6 +38,7 @@ def transportsOp : List String → String
             let exp := match kind with
               | "ok" => sendmailResult true []
               | "fail" => sendmailResult false (str "boom: rejected\n")
+              | "killed" => sendmailResult false (str "killed: out of memory\n")
               | _ => sendmailResult false [255, 254]
             let expS := match exp with
               | .ok => "ok"
